@@ -292,7 +292,13 @@ func Graph(r *mon.Rng, maxTypes int) *model.Schema {
 			}
 			t = &model.TypeDef{Name: tname(i), Root: a}
 		case "keystring":
-			switch r.Intn(7) {
+			switch r.Intn(8) {
+			case 7: // an or rule on a string example; one of its alternatives is not a string (and can never match a key)
+				sets := []model.OrItem{model.OrSet(model.RStr("type", mon.Pick(r, []string{"integer", "boolean", "float"}))), model.OrSet(model.RStr("type", "string"), model.RInt("minLength", 2), model.RInt("maxLength", 6))}
+				if r.Bool() {
+					sets[0], sets[1] = sets[1], sets[0]
+				}
+				t = &model.TypeDef{Name: tname(i), Root: model.Str("kk" + strconv.Itoa(i)).With(model.ROr(sets...))}
 			case 3: // exactly one key
 				t = &model.TypeDef{Name: tname(i), Root: model.Str("only" + strconv.Itoa(i)).With(model.RBool("const", true))}
 			case 4: // a format
